@@ -8,7 +8,10 @@ Facts extracted (syntactic, from the current source):
     precedes every read of that member in the body - or not at all;
   * which members the other methods (MetaPut, Put, CloseMerge, destructor) read;
   * whether UserDbValue's members carry the default initialisers 0 / 0.0 / 0
-    (the model's `value0`, read by Put when the key is new).
+    (the model's `value0`, read by Put when the key is new);
+  * every automatic variable declared without initialiser in the functions of the merge,
+    snapshot and text export/import paths (tsv.cc, db_utils.cc, table_db.cc, user_db.cc,
+    user_dict_manager.cc) - the model initialises all of its locals, so the list must be empty.
 The model has exactly the members db_, our_tick_, their_tick_, max_tick_,
 merged_entries_; if the class no longer has that shape (or has several
 constructors, or the AST cannot be read) the translator refuses:
@@ -127,6 +130,69 @@ def analyse_value(objs):
     return out, []
 
 
+# functions on the merge / snapshot / text export-import paths whose locals are inspected
+LOCAL_SITES = [
+    ("src/rime/dict/tsv.cc", "Tsv", ["operator()"]),
+    ("src/rime/dict/db_utils.cc", "Dump", ["Dump"]),
+    ("src/rime/dict/table_db.cc", "rime_table_entry", ["rime_table_entry_parser", "rime_table_entry_formatter"]),
+    ("src/rime/dict/user_db.cc", "userdb_entry", ["userdb_entry_parser", "userdb_entry_formatter"]),
+    ("src/rime/dict/user_db.cc", "UserDb", ["Put", "MetaPut", "CloseMerge", "Unpack", "Pack", "UniformBackup", "UniformRestore"]),
+    ("src/rime/lever/user_dict_manager.cc", "UserDictManager", ["Backup", "Restore", "Export", "Import", "Synchronize"]),
+]
+
+
+def walk_parent(n, parent):
+    yield n, parent
+    for c in n.get("inner", []) or []:
+        yield from walk_parent(c, n)
+
+
+def uninitialised_locals():
+    """(function, variable, line) for every automatic variable declared without an initialiser in the
+    functions of LOCAL_SITES (class-type locals show up with init=call, i.e. default-constructed).
+    Cached per source file content."""
+    import hashlib
+    import json
+    cache_path = os.path.join(vlib.WORK, "c17_locals_cache.json")
+    try:
+        cache = json.load(open(cache_path))
+    except Exception:
+        cache = {}
+    out, seen_fns, problems = [], [], []
+    for rel, flt, names in LOCAL_SITES:
+        src = os.path.join(vlib.REPO, rel)
+        key = hashlib.sha256(open(src, "rb").read()).hexdigest() + ":v2:" + flt + ":" + ",".join(names)
+        if key not in cache:
+            found, fns = [], []
+            try:
+                objs = clang_ast(src, flt)
+            except Exception as ex:
+                problems.append("clang AST unavailable for %s: %s" % (rel, str(ex)[:120]))
+                continue
+            for o in objs:
+                cands = [o] + [c for c in o.get("inner", []) or [] if c.get("kind") in ("CXXMethodDecl", "FunctionDecl")]
+                for fn in cands:
+                    if fn.get("kind") in ("CXXMethodDecl", "FunctionDecl") and fn.get("name") in names and \
+                            any(c.get("kind") == "CompoundStmt" for c in fn.get("inner", []) or []):
+                        fns.append(fn["name"])
+                        for x, parent in walk_parent(fn, None):
+                            if x.get("kind") == "VarDecl" and "init" not in x and x.get("storageClass") not in ("static", "extern") \
+                                    and (parent or {}).get("kind") != "CXXCatchStmt":     # `catch (T& ex)` is bound by the throw
+                                found.append([fn["name"], x.get("name"), (x.get("loc", {}) or {}).get("line")])
+            cache[key] = {"found": found, "fns": sorted(set(fns))}
+        out += [tuple(x) for x in cache[key]["found"]]
+        seen_fns += ["%s:%s" % (os.path.basename(rel), f) for f in cache[key]["fns"]]
+        missing = [n for n in names if n not in cache[key]["fns"]]
+        if missing:
+            problems.append("%s: expected function(s) %s not found" % (rel, missing))
+    try:
+        os.makedirs(vlib.WORK, exist_ok=True)
+        json.dump({k: v for k, v in list(cache.items())[-40:]}, open(cache_path, "w"))
+    except Exception:
+        pass
+    return sorted(set(out)), seen_fns, problems
+
+
 def coq_list(items):
     return "[" + "; ".join(items) + "]"
 
@@ -145,6 +211,8 @@ def generate():
     imf, imr, p2 = analyse_class(iobjs, "UserDbImporter")
     vf, p3 = analyse_value(vobjs)
     problems += p1 + p2 + p3
+    locs, loc_fns, p4 = uninitialised_locals()
+    problems += p4
     if sorted(mf) != sorted(EXPECT_MERGER):
         problems.append("UserDbMerger members are %s, the model has %s" % (sorted(mf), sorted(EXPECT_MERGER)))
     if sorted(imf) != sorted(EXPECT_IMPORTER):
@@ -168,6 +236,8 @@ def generate():
         "Definition importer_fields_read : list string := %s." % coq_list(q(n) for n in imr),
         "Definition value_fields_zero_default : list (string * bool) := %s." %
         coq_list("(%s, %s)" % (q(n), "true" if z else "false") for n, z in vf.items()),
+        "(* automatic variables declared without initialiser in %d inspected functions of the merge/snapshot/export/import paths *)" % len(loc_fns),
+        "Definition uninitialised_locals : list (string * string) := %s." % coq_list("(%s, %s)" % (q(f), q(v)) for f, v, l in locs),
         "",
         "(* does construction leave UserDbMerger::merged_entries_ initialised? *)",
         "Definition ctor_inits_merged_entries : bool :=",
@@ -177,11 +247,13 @@ def generate():
         "Definition all_read_members_initialised : bool :=",
         "  translator_ok && forallb (field_initialised merger_fields) merger_fields_read",
         "  && forallb (field_initialised importer_fields) importer_fields_read",
-        "  && forallb snd value_fields_zero_default.",
+        "  && forallb snd value_fields_zero_default",
+        "  && match uninitialised_locals with [] => true | _ => false end.",
     ]
     vlib.write_if_changed(os.path.join(vlib.COQ, "Gen", "Inits.v"), "\n".join(lines) + "\n")
     return dict(ok=ok, problems=problems, merger_fields=mf, merger_fields_read=mr, importer_fields=imf,
                 importer_fields_read=imr, value_fields_zero_default=vf,
+                uninitialised_locals=[list(x) for x in locs], inspected_functions=loc_fns,
                 ctor_inits_merged_entries=ok and mf.get("merged_entries_") in ("InClass", "CtorInitList", "CtorBody"))
 
 
